@@ -103,6 +103,7 @@ impl verif::Hooks for NoteLog {
 pub fn policy_add_traced(p: &VPolicy, log: &NoteLog, k: u64, cost: i64) -> (String, String, usize, bool) {
     log.notes.lock().unwrap().clear();
     let inc = p.estimate(k);
+    let charged_before = p.snap().key_costs.len();
     let (victims, added) = p.add(k, cost);
     let notes: Vec<(&'static str, Vec<u64>)> = std::mem::take(&mut *log.notes.lock().unwrap());
     let iters: Vec<&Vec<u64>> = notes.iter().filter(|(n, _)| *n == "pol:sample").map(|(_, a)| a).collect();
@@ -126,6 +127,7 @@ pub fn policy_add_traced(p: &VPolicy, log: &NoteLog, k: u64, cost: i64) -> (Stri
             .collect::<Vec<_>>()
             .join(";")
     };
+    check_c07(p, k, cost, inc, &iters, &victims, added, charged_before);
     let obs = format!(
         "added={} victims={} inc={} iters={}",
         if added { 1 } else { 0 },
@@ -137,6 +139,67 @@ pub fn policy_add_traced(p: &VPolicy, log: &NoteLog, k: u64, cost: i64) -> (Stri
         iters_s
     );
     (op, obs, iters.len(), added)
+}
+
+/// Monitor for C07 on the implementation's own report of one `add`: every iteration ran only while
+/// room was lacking, sampled five candidates (or fewer only if fewer are charged), chose the first
+/// least popular candidate, evicted only candidates no more popular than the newcomer, and the
+/// newcomer was rejected exactly when strictly less popular than the last minimum.
+pub static C07_CASE: std::sync::atomic::AtomicU64 = std::sync::atomic::AtomicU64::new(0);
+
+fn check_c07(p: &VPolicy, k: u64, cost: i64, inc: i64, iters: &[&Vec<u64>], victims: &Option<Vec<(u64, i64)>>, added: bool, charged_before: usize) {
+    let case = C07_CASE.load(std::sync::atomic::Ordering::Relaxed);
+    let bad = |msg: String| println!("MONITOR property=C07 case={} msg={} key={} cost={}", case, msg, k, cost);
+    let n = iters.len();
+    let after = p.snap();
+    for (i, a) in iters.iter().enumerate() {
+        let (mk, mh, mi, _mc, room) = (a[0], a[1] as i64, a[2] as usize, a[3] as i64, a[5] as i64);
+        let pairs: Vec<(u64, i64)> = a[6..].chunks(2).map(|c| (c[0], c[1] as i64)).collect();
+        if room >= 0 {
+            bad(format!("iteration-{}-ran-although-there-was-room room={}", i, room));
+        }
+        if pairs.is_empty() {
+            continue;
+        }
+        let ests: Vec<i64> = pairs.iter().map(|(kk, _)| p.estimate(*kk)).collect();
+        let least = *ests.iter().min().unwrap();
+        let first = ests.iter().position(|e| *e == least).unwrap();
+        if mh != least || mi != first || pairs[mi].0 != mk {
+            bad(format!("iteration-{}-victim-is-not-the-first-least-popular-candidate chosen={}@{}(hits {}) least={}@{}", i, mk, mi, mh, least, first));
+        }
+        let last = i + 1 == n;
+        if !(last && !added) && mh > inc {
+            bad(format!("iteration-{}-evicted-a-candidate-more-popular-than-the-newcomer victim_hits={} newcomer_hits={}", i, mh, inc));
+        }
+        if last && !added && !(inc < mh) {
+            bad(format!("rejected-although-not-strictly-less-popular newcomer_hits={} min_hits={}", inc, mh));
+        }
+        if pairs.len() > 5 {
+            bad(format!("iteration-{}-sampled-more-than-five", i));
+        }
+        if pairs.len() < 5 && i == 0 {
+            // first sample smaller than five: then it must hold every charged key
+            if pairs.len() < charged_before.min(5) {
+                bad(format!("first-sample-has-{}-candidates-but-{}-were-charged", pairs.len(), charged_before));
+            }
+        }
+    }
+    if n > 0 && added {
+        if after.used > after.max_cost {
+            bad(format!("admitted-while-room-still-lacking used={} max={}", after.used, after.max_cost));
+        }
+    }
+    if n > 0 && !added {
+        // rejected: was room still lacking and were candidates left?  (an empty last sample with
+        // charged keys remaining means the sample was not refilled)
+        let a = iters[n - 1];
+        if a.len() == 6 && !after.key_costs.is_empty() {
+            bad(format!("rejected-on-an-empty-sample-while-{}-keys-are-still-charged", after.key_costs.len()));
+        }
+    }
+    if n == 0 && victims.as_ref().map_or(false, |v| !v.is_empty()) {
+        bad("victims-without-a-sampling-iteration".to_string());
+    }
 }
 
 // ------------------------------------------------------------------------------------------
@@ -598,8 +661,30 @@ pub fn suite_tlfu(rng: &mut Rng, cases: u64, t: &mut Trace, ex: &mut Exec) {
         let pool = hash_pool(rng, 5);
         let steps = rng.range(10, 90);
         let mut resets = 0;
-        // monitor (C13): between resets the estimate never undercounts min(count, 15)
+        // monitors (C13): between resets the estimate never undercounts min(count, 15); the aging
+        // reset happens at exactly the num_counters-th recorded access since the last one
         let mut counts: std::collections::HashMap<u64, u64> = Default::default();
+        let mut since: u64 = 0;
+        let mut record = |ex: &mut Exec, t: &mut Trace, hs: &[u64], counts: &mut std::collections::HashMap<u64, u64>, since: &mut u64, resets: &mut u64| {
+            if hs.len() == 1 {
+                ex.run(&format!("inc {}", hs[0]), t);
+            } else {
+                ex.run(&format!("incs {}", hs.iter().map(|x| x.to_string()).collect::<Vec<_>>().join(" ")), t);
+            }
+            for h in hs {
+                *since += 1;
+                *counts.entry(*h).or_insert(0) += 1;
+                if *since >= ctrs {
+                    *since = 0;
+                    *resets += 1;
+                    counts.clear();
+                }
+            }
+            let w = ex.tl.as_ref().unwrap().snap().w;
+            if w != *since {
+                println!("MONITOR property=C13 case={} msg=aging-reset-not-at-num_counters num_counters={} accesses_since_reset={} w={}", id, ctrs, *since, w);
+            }
+        };
         for _ in 0..steps {
             let h = if rng.chance(1, 5) { rng.next() } else { *rng.pick(&pool) };
             match rng.below(10) {
@@ -607,48 +692,28 @@ pub fn suite_tlfu(rng: &mut Rng, cases: u64, t: &mut Trace, ex: &mut Exec) {
                     if rng.chance(1, 3) {
                         ex.run("clear", t);
                         counts.clear();
+                        since = 0;
                     }
                 }
                 1 | 2 | 3 => {
                     let v: u64 = ex.run(&format!("est {}", h), t).parse().unwrap_or(0);
                     let c = *counts.get(&h).unwrap_or(&0);
-                    if v < c.min(15) {
+                    if v < c.min(16) {
                         println!("MONITOR property=C13 case={} msg=undercount hash={} est={} recorded={}", id, h, v, c);
+                    }
+                    if v > 16 {
+                        println!("MONITOR property=C13 case={} msg=estimate-above-saturation hash={} est={}", id, h, v);
                     }
                 }
                 4 => {
-                    let n = rng.range(0, 6);
+                    let n = rng.range(2, 6);
                     let hs: Vec<u64> = (0..n).map(|_| *rng.pick(&pool)).collect();
-                    for x in &hs {
-                        let w0 = ex.tl.as_ref().unwrap().snap().w;
-                        ex.run(&format!("inc {}", x), t);
-                        *counts.entry(*x).or_insert(0) += 1;
-                        if ex.tl.as_ref().unwrap().snap().w <= w0 {
-                            resets += 1;
-                            counts.clear();
-                        }
-                    }
-                    let hs2: Vec<String> = (0..rng.below(3)).map(|_| rng.pick(&pool).to_string()).collect();
-                    if !hs2.is_empty() {
-                        let w0 = ex.tl.as_ref().unwrap().snap().w;
-                        ex.run(&format!("incs {}", hs2.join(" ")), t);
-                        if ex.tl.as_ref().unwrap().snap().w < w0 + hs2.len() as u64 {
-                            resets += 1;
-                            counts.clear();
-                        } else {
-                            for x in &hs2 {
-                                *counts.entry(x.parse().unwrap()).or_insert(0) += 1;
-                            }
-                        }
-                    }
+                    record(ex, t, &hs, &mut counts, &mut since, &mut resets);
                 }
                 _ => {
-                    let w0 = ex.tl.as_ref().unwrap().snap().w;
-                    ex.run(&format!("inc {}", h), t);
-                    *counts.entry(h).or_insert(0) += 1;
-                    if ex.tl.as_ref().unwrap().snap().w <= w0 {
-                        resets += 1;
-                        counts.clear();
+                    let reps = if rng.chance(1, 8) { 18 } else { 1 };
+                    for _ in 0..reps {
+                        record(ex, t, &[h], &mut counts, &mut since, &mut resets);
                     }
                 }
             }
@@ -663,6 +728,7 @@ pub fn suite_tlfu(rng: &mut Rng, cases: u64, t: &mut Trace, ex: &mut Exec) {
 pub fn suite_policy(rng: &mut Rng, cases: u64, t: &mut Trace, ex: &mut Exec) {
     for id in 0..cases {
         t.case(id, "policy");
+        C07_CASE.store(id, std::sync::atomic::Ordering::Relaxed);
         ex.reset();
         let ctrs = *rng.pick(&[8u64, 16, 64, 3]);
         let mc = *rng.pick(&[10i64, 20, 37, 100]);
@@ -803,7 +869,7 @@ pub fn suite_bloomfp(rng: &mut Rng, _cases: u64, t: &mut Trace) -> String {
     let mut id = 0;
     for &n in &[100usize, 1000, 10000] {
         for &p in &[0.1f64, 0.01, 0.001] {
-            for family in 0..3 {
+            for family in 0..5 {
                 id += 1;
                 t.case(id, "bloomfp");
                 let mut bl = VBloom::new(n, p);
@@ -812,7 +878,9 @@ pub fn suite_bloomfp(rng: &mut Rng, _cases: u64, t: &mut Trace) -> String {
                     match family {
                         0 => r.next(),
                         1 => base ^ (i << 44),
-                        _ => base ^ i,
+                        2 => base ^ i,
+                        3 => r.next() & !(1u64 << 63), // probes: the same hashes with bit 63 set
+                        _ => r.next() & !1u64,         // probes: the same hashes with bit 0 set
                     }
                 };
                 let mut added = std::collections::HashSet::new();
@@ -830,17 +898,28 @@ pub fn suite_bloomfp(rng: &mut Rng, _cases: u64, t: &mut Trace) -> String {
                         missing += 1;
                     }
                 }
-                let probes = 20000u64;
+                let mut probes = 20000u64;
                 let mut fp = 0u64;
-                let mut tried = 0u64;
-                while tried < probes {
-                    let h = rng.next();
-                    if added.contains(&h) {
-                        continue;
+                if family >= 3 {
+                    // one-bit twins of the added hashes: never added themselves
+                    let bit = if family == 3 { 1u64 << 63 } else { 1u64 };
+                    probes = added.len() as u64;
+                    for h in &added {
+                        if bl.contains(*h | bit) {
+                            fp += 1;
+                        }
                     }
-                    tried += 1;
-                    if bl.contains(h) {
-                        fp += 1;
+                } else {
+                    let mut tried = 0u64;
+                    while tried < probes {
+                        let h = rng.next();
+                        if added.contains(&h) {
+                            continue;
+                        }
+                        tried += 1;
+                        if bl.contains(h) {
+                            fp += 1;
+                        }
                     }
                 }
                 let rate = fp as f64 / probes as f64;
@@ -849,7 +928,7 @@ pub fn suite_bloomfp(rng: &mut Rng, _cases: u64, t: &mut Trace) -> String {
                 if missing > 0 {
                     println!("MONITOR property=C14 case={} msg=false-negative n={} p={} family={} missing={}", id, n, p, family, missing);
                 }
-                if family == 0 && rate > 10.0 * p + 0.01 {
+                if (family == 0 || family >= 3) && rate > 10.0 * p + 0.01 {
                     println!("MONITOR property=C14 case={} msg=false-positive-rate-far-above-target n={} p={} measured={:.5}", id, n, p, rate);
                 }
                 rows.push(format!("{{\"n\":{},\"p\":{},\"family\":{},\"fp_rate\":{:.5},\"false_negatives\":{}}}", n, p, family, rate, missing));
